@@ -66,7 +66,10 @@ package ttlcache
 //@   at call Now#0 ghost tnow = unixNano(res0)
 //@   at call ForEach#0 assume c.m == old(c.m) && c.clock == old(c.clock) && c.m.has == old(c.m.has) && c.m.hval == old(c.m.hval) && c.m.hexp == old(c.m.hexp)
 //@   at call ForEach#0 ghost tnow = unixNano(now)
-//@   at before call Del#0 assume forall j :: 0 <= j && j < len(arg1) ==> (c.m.has[arg1[j]] && c.m.hexp[arg1[j]] < tnow)
+//@   ghost klen0 int
+//@   at before call ForEach#0 ghost klen0 = len(keys)
+//@   at call ForEach#0 assume klen0 <= len(keys) && (forall j :: klen0 <= j && j < len(keys) ==> (c.m.has[keys[j]] && c.m.hexp[keys[j]] < tnow))
+//@   at before call Del#0 assert [C15.cleanup.list] forall j :: 0 <= j && j < len(arg1) ==> (c.m.has[arg1[j]] && c.m.hexp[arg1[j]] < tnow)
 //@   ensures inv(c)
 //@   ensures [C15.cleanup.onlyexpired] forall k string :: (old(c.m.has[k]) && !c.m.has[k]) ==> old(c.m.hexp[k]) < tnow
 //@   ensures [C15.cleanup.nonew] forall k string :: c.m.has[k] ==> old(c.m.has[k])
